@@ -547,6 +547,8 @@ class FormOracle:
         coordinate_dofs: flat [restriction][node][3]; w: flat [coefficient][restriction][dof].
         For interior facets both sides use the SAME reference-facet points (permutation code 0).
         """
+        if self.complex:  # complex mode computes in complex arithmetic whatever the data
+            w, c = np.asarray(w, dtype=complex), np.asarray(c, dtype=complex)
         itg = self.fd.integral_data[k]
         itype = itg.integral_type
         width = 2 if itype == "interior_facet" else 1
@@ -614,6 +616,25 @@ class FormOracle:
 
 
 # ------------------------------------------------------------------------------- expressions
+def permuted_facet_points(ftype, code, pts):
+    """The documented meaning of a quadrature_permutation code on a facet of type `ftype`:
+    code // 2 rotations, then code % 2 reflections of the reference facet points."""
+    pts = np.array(pts, dtype=float)
+    rot, ref = code // 2, code % 2
+    if ftype == "point":
+        return pts
+    if ftype == "interval":
+        return 1 - pts if ref else pts
+    for _ in range(rot):
+        if ftype == "triangle":
+            pts = np.stack([pts[:, 1], 1 - pts[:, 0] - pts[:, 1]], axis=1)
+        else:
+            pts = np.stack([pts[:, 1], 1 - pts[:, 0]], axis=1)
+    if ref:
+        pts = np.stack([pts[:, 1], pts[:, 0]], axis=1)
+    return pts
+
+
 class ExpressionOracle:
     def __init__(self, expr, points, complex_mode=False):
         self.orig = expr
@@ -623,7 +644,8 @@ class ExpressionOracle:
         self.args = sorted(ufl.algorithms.extract_arguments(expr), key=lambda a: a.number())
         self.arg_elements = [a.ufl_function_space().ufl_element() for a in self.args]
         self.arg_dims = [int(e.dim) for e in self.arg_elements]
-        self.coefs = list(ufl.algorithms.extract_coefficients(expr))
+        # w holds the coefficients that survive UFL's differentiation, in count order (see harness/kernels.py)
+        self.coefs = list(ufl.algorithms.extract_coefficients(apply_derivatives(apply_algebra_lowering(expr))))
         self.coef_dims = [int(c.ufl_function_space().ufl_element().dim) for c in self.coefs]
         self.coef_index = {c: k for k, c in enumerate(self.coefs)}
         self.consts = list(ufl.algorithms.analysis.extract_constants(expr))
@@ -634,10 +656,16 @@ class ExpressionOracle:
             off += int(np.prod(c.ufl_shape)) if c.ufl_shape else 1
         self.domain = ufl.domain.extract_unique_domain(expr)
 
-    def tabulate(self, w, c, coordinate_dofs, entity=0):
+    def tabulate(self, w, c, coordinate_dofs, entity=0, perm=0):
+        if self.complex:  # complex mode computes in complex arithmetic whatever the data (sqrt/pow of negative reals)
+            w, c = np.asarray(w, dtype=complex), np.asarray(c, dtype=complex)
         dom = self.domain
         cellname = dom.ufl_cell().cellname
         tdim = len(basix.topology(cell_type(cellname))) - 1
+        points = self.points
+        if perm and points.shape[1] == tdim - 1 and tdim >= 2:
+            sub = basix.cell.subentity_types(cell_type(cellname))[tdim - 1][entity]
+            points = permuted_facet_points(sub.name, int(perm), points)
         cel = dom.ufl_coordinate_element()
         gdim = int(cel.reference_value_shape[0])
         scal = cel.basix_element
@@ -649,18 +677,18 @@ class ExpressionOracle:
         for d in self.coef_dims:
             coef_offsets.append(off)
             off += d
-        pdim = self.points.shape[1]
+        pdim = points.shape[1]
         vshape = tuple(self.orig.ufl_shape)
         nv = int(np.prod(vshape)) if vshape else 1
         nd = self.arg_dims[0] if self.arg_dims else 1
         dtype = complex if self.complex else float
-        A = np.zeros((self.points.shape[0], nv, nd), dtype=dtype)
-        for q in range(self.points.shape[0]):
+        A = np.zeros((points.shape[0], nv, nd), dtype=dtype)
+        for q in range(points.shape[0]):
             if pdim == tdim:
-                X = self.points[q:q + 1]
+                X = points[q:q + 1]
                 facets = {}
             elif pdim == tdim - 1:
-                X = map_entity_points(cellname, tdim - 1, entity, self.points[q:q + 1])
+                X = map_entity_points(cellname, tdim - 1, entity, points[q:q + 1])
                 facets = {"+": entity, "-": entity}
             else:
                 X = map_entity_points(cellname, 0, entity, None)
